@@ -166,6 +166,27 @@ theorem collect_depends_on_root_set {g g1 g2 : Gc} {st1 st2 : List Slot} {gp1 gp
     have n2 : ¬ (objAt g2.mem x).isSome = true := fun hs => hx (hl.mpr ((e2 x).mp hs))
     cases ha : objAt g1.mem x <;> cases hb : objAt g2.mem x <;> simp_all
 
+/-- **a cell the program can still reach is never handed out again**: the cell an allocation gets
+right after a collection was not reachable from the roots of that collection -/
+theorem alloc_after_collect_not_live {g g' g'' : Gc} {st : List Slot} {gp : Nat} {o : Obj} {loc : Nat}
+    (inv : Inv g) (wt : g.wellTyped (.collect st gp) = true) (h : g.collect st gp = some g')
+    (wta : g'.wellTyped (.alloc o) = true) (ha : g'.alloc o = some (g'', loc)) :
+    ¬ Live g.mem (allRoots st gp) loc ∧
+    ∀ x, Live g.mem (allRoots st gp) x → objAt g''.mem x = objAt g.mem x := by
+  obtain ⟨inv', e2, k2, _⟩ := C09.collect_exact inv wt h
+  obtain ⟨_, hnone, _, _, _⟩ := C09.alloc_fresh inv' wta ha
+  obtain ⟨fl, il⟩ := inv'
+  obtain ⟨_, _, _, _, _, hmem, _⟩ := inv_alloc il (by simpa [Gc.wellTyped] using wta) ha
+  have hnl : ¬ Live g.mem (allRoots st gp) loc := by
+    intro hl
+    have := (e2 loc).mpr hl
+    rw [hnone] at this; cases this
+  refine ⟨hnl, fun x hx => ?_⟩
+  have hne : x ≠ loc := fun e => hnl (e ▸ hx)
+  rw [← k2 x hx, hmem, objAt_setObj]
+  have hne' : ¬ (loc = x ∧ loc < g'.mem.size) := fun c => hne c.1.symm
+  simp only [hne', if_false]
+
 /-- what a cell reachable before the collection points at is reachable after it with the same
 contents, to any depth: the whole reachable graph is isomorphic (identity map) -/
 theorem collect_preserves_reachable_graph {g g' : Gc} {st : List Slot} {gp : Nat} (inv : Inv g)
